@@ -7,7 +7,7 @@ The file is used twice by checks/c13.py: imported as the module ``vlib.c13_actor
 name: stdlib pickle and cloudpickle by reference) and ``exec``-ed into an anonymous namespace (classes not importable:
 cloudpickle by value, like actors defined in ``__main__`` or a notebook).
 
-Nothing in here is an oracle: the expected outputs are computed in checks/c13.py from the flavour table only.
+Nothing in here is an oracle: the expected outputs are computed in checks/c13.py from its own flavour table.
 """
 import pickle
 
@@ -327,6 +327,16 @@ class WrapStateless:
             setattr(self, key, value)
 
 
+@wrap.Actor.type(train='fit', apply='predict')
+class WrapRequired(_Estimator):
+    """Class actor whose origin has a mandatory constructor argument (reported by get_params like any other)."""
+
+    TAG = 'wr'
+
+    def __init__(self, alpha, beta='b'):  # pylint: disable=useless-parent-delegation
+        super().__init__(alpha, beta)
+
+
 class Estimator2(_Estimator):
     """Origin of WrapAssigned."""
 
@@ -368,11 +378,3 @@ class _NoFit:
 
 WrapMissingTrain = wrap.Actor.type(_NoFit, train='fit', apply='predict')  # mapped name the origin does not implement
 WrapCallableTrain = wrap.Actor.type(_NoFit, train=lambda o, f, l: None, apply='predict')
-
-STATEFULNESS = {
-    'NativeDefault': True, 'NativeInherited': True, 'NativeCustom': True, 'NativeSloppy': True, 'NativeOpen': True,
-    'NativeStateless': False, 'FnStateless': False, 'FnStatelessKw': False, 'FnStateful': True, 'FnStatefulPos': True,
-    'FnStatefulKw': True, 'WrapNamed': True, 'WrapCallable': True, 'WrapBare': True, 'WrapStateless': False,
-    'WrapAssigned': True, 'StatefulByMixin': True, 'StatelessChild': False, 'WrapMissingTrain': False,
-    'WrapCallableTrain': True,
-}
